@@ -615,4 +615,33 @@ Definition wire_of_out (o : out) : wire :=
   | OpMode m => mk 7 [m] []
   | Accept => mk 8 [] []
   end.
-Definition main_wire (ws : list wire) : list wire := map wire_of_out (run (concat (map ev_of_wire ws))).
+(* ---------- boot decision of an MQTT-capable build (user_init(), #ifdef MQTT_SUPPORT_ENABLED) ----------
+   A stored configuration as the decision sees it: three flag bits and, for every string, "is it set" (first byte non-zero).
+   [mboot_incomplete] and [mboot_locked] transcribe the two `if`s in front of supla_esp_cfgmode_start(); the truth tables of both
+   are compared with the tables the translator computes from the source text (Proofs: boot_tables). *)
+Record bootcfg := { bc_en : bool; bc_noauth : bool; bc_locked : bool; bc_ssid : bool; bc_wpwd : bool; bc_server : bool;
+                    bc_user : bool; bc_pass : bool; bc_email : bool }.
+Definition mboot_incomplete (c : bootcfg) : bool :=
+  negb (bc_ssid c) || negb (bc_wpwd c)
+  || (bc_en c && (negb (bc_server c) || (negb (bc_noauth c) && (negb (bc_user c) || negb (bc_pass c)))))
+  || (negb (bc_en c) && (negb (bc_server c) || negb (bc_email c))).
+Definition mboot_locked (c : bootcfg) : bool := bc_en c && bc_locked c.
+Definition mboot_enters (c : bootcfg) : bool := mboot_incomplete c || mboot_locked c.
+(* the non-MQTT build (the whole-device model above takes the result as the blank mask of the BOOT event) *)
+Definition pboot_enters (ssid wpwd server email locid locpwd : bool) : bool :=
+  ((negb locid || negb locpwd) && negb email) || negb server || negb wpwd || negb ssid.
+Definition nz (z : Z) : bool := negb (z =? 0).
+(* MBOOT ints: en noauth locked ssid wpwd server ident pass;  outputs: CFGMODE 0 | START 1 (SUPLA client) / 2 (MQTT client).
+   Email and Username are one field of SuplaEspCfg (anonymous union, offsets compared in Boot.v): "ident" sets both. *)
+Definition bootcfg_of_ints (a : list Z) : bootcfg :=
+  {| bc_en := nz (nthz a 0); bc_noauth := nz (nthz a 1); bc_locked := nz (nthz a 2); bc_ssid := nz (nthz a 3); bc_wpwd := nz (nthz a 4);
+     bc_server := nz (nthz a 5); bc_user := nz (nthz a 6); bc_pass := nz (nthz a 7); bc_email := nz (nthz a 6) |}.
+Definition mboot_wire (a : list Z) : list wire :=
+  let c := bootcfg_of_ints a in
+  if mboot_enters c then [mk 0 [0] []] else [mk 9 [if bc_en c then 2 else 1] []].
+
+Definition main_wire (ws : list wire) : list wire :=
+  match ws with
+  | (k, a, _) :: _ => if k =? 10 then mboot_wire a else map wire_of_out (run (concat (map ev_of_wire ws)))
+  | [] => []
+  end.
